@@ -9,7 +9,7 @@ from harness import model, proto_impl as PI, vloop
 from harness.common import Prop
 
 
-async def _run(ops, talking):
+async def _run(ops, talking, late_fail=False):
     log, transports = [], []
     script = []
     for op in ops:
@@ -17,7 +17,7 @@ async def _run(ops, talking):
             script += [False] * op[1] + [True]
         elif op[0] == "loss":
             script += [False] * op[1] + ([True] if op[2] else [False] * 50)
-    conn, proto = CI.make_connection(script, log, transports)
+    conn, proto = CI.make_connection(script, log, transports, default_ok=not late_fail)
     loop = asyncio.get_running_loop()
     sensor_full = PI.payload("messages/sensor_data.json", "full_sensor_data")
     sensor_full = b"\x00" + sensor_full[1 + 3 * sensor_full[0]:]
@@ -168,12 +168,12 @@ class C12(Prop):
                     ops.append(["silence", rng.choice([0, 1, 5, 9, 11, 30])])
             # close() at every point of the history
             for cut in range(1, len(ops) + 1):
-                cases.append({"kind": "prefix", "ops": ops[:cut], "talking": rng.random() < 0.3})
+                cases.append({"kind": "prefix", "ops": ops[:cut], "talking": rng.random() < 0.3, "late_fail": rng.random() < 0.5})
         return cases
 
     def run_impl(self, c):
         try:
-            r = vloop.run(_run, c["ops"], c["talking"])
+            r = vloop.run(_run, c["ops"], c["talking"], c.get("late_fail", False))
         except vloop.Deadlock:
             return {"state": None, "result": [False, 0, 0, False], "left_names": ["quiescent-deadlock"]}
         c["_state"] = r["state"]
